@@ -104,6 +104,7 @@ type Term struct {
 	f     uint64 // float bits
 	r     *big.Rat
 	cases []Case
+	ps      []pset // memberships in registered partitions of mutually exclusive guards
 	// var attributes
 	noBytes string // bytes known absent from this string var
 	lo, hi  int64  // for enum vars (lo<=hi meaningful if ranged)
@@ -244,6 +245,108 @@ func constKey(t *Term) string {
 }
 
 // ---------------------------------------------------------------------------
+// partitions of mutually exclusive guards
+//
+// The guards of one case list are mutually exclusive by construction. Guards
+// that are unions of blocks of the same partition ("psets") are intersected
+// exactly in And(), which removes the spurious (guard, value) pairs that arise
+// when two operands derive from the same lifted value.
+
+type pset struct {
+	pid int
+	idx []int32 // sorted block indices
+}
+
+var partitions [][]*Term // pid -> atoms
+
+func registerPartition(guards []*Term) {
+	pid := len(partitions)
+	partitions = append(partitions, nil)
+	for _, g := range guards {
+		if g.op == OpConst {
+			continue
+		}
+		g.ps = append(g.ps, pset{pid: pid, idx: []int32{int32(len(partitions[pid]))}})
+		partitions[pid] = append(partitions[pid], g)
+	}
+}
+
+func (t *Term) psFor(pid int) []int32 {
+	for i := range t.ps {
+		if t.ps[i].pid == pid {
+			return t.ps[i].idx
+		}
+	}
+	return nil
+}
+
+func unionIdx(a, b []int32) []int32 {
+	out := make([]int32, 0, len(a)+len(b))
+	i, j := 0, 0
+	for i < len(a) && j < len(b) {
+		switch {
+		case a[i] < b[j]:
+			out = append(out, a[i])
+			i++
+		case a[i] > b[j]:
+			out = append(out, b[j])
+			j++
+		default:
+			out = append(out, a[i])
+			i++
+			j++
+		}
+	}
+	out = append(out, a[i:]...)
+	out = append(out, b[j:]...)
+	return out
+}
+
+func interIdx(a, b []int32) []int32 {
+	var out []int32
+	i, j := 0, 0
+	for i < len(a) && j < len(b) {
+		switch {
+		case a[i] < b[j]:
+			i++
+		case a[i] > b[j]:
+			j++
+		default:
+			out = append(out, a[i])
+			i++
+			j++
+		}
+	}
+	return out
+}
+
+func diffIdx(a, b []int32) []int32 {
+	var out []int32
+	j := 0
+	for _, x := range a {
+		for j < len(b) && b[j] < x {
+			j++
+		}
+		if j < len(b) && b[j] == x {
+			continue
+		}
+		out = append(out, x)
+	}
+	return out
+}
+
+func psetTerm(pid int, idx []int32) *Term {
+	if len(idx) == 0 {
+		return False
+	}
+	ts := make([]*Term, len(idx))
+	for i, k := range idx {
+		ts[i] = partitions[pid][k]
+	}
+	return Or(ts...)
+}
+
+// ---------------------------------------------------------------------------
 // boolean connectives
 
 func Not(t *Term) *Term {
@@ -270,9 +373,18 @@ func eqAtom(t *Term) (*Term, *Term, bool) {
 const flattenMax = 12
 
 func And(ts ...*Term) *Term {
+	r := and0(ts...)
+	if debugAnd {
+		checkAnd(ts, r)
+	}
+	return r
+}
+
+func and0(ts ...*Term) *Term {
 	out := make([]*Term, 0, len(ts))
 	seen := map[int]bool{}
 	var eqs map[int]*Term
+	var flatPs []pset // memberships of flattened conjunctions that are registered atoms
 	var add func(t *Term) bool
 	add = func(t *Term) bool {
 		if t.sort != SBool {
@@ -285,6 +397,9 @@ func And(ts ...*Term) *Term {
 			return false
 		}
 		if t.op == OpAnd && len(t.args) <= flattenMax {
+			if len(t.ps) > 0 {
+				flatPs = append(flatPs, t.ps...)
+			}
 			for _, a := range t.args {
 				if !add(a) {
 					return false
@@ -322,6 +437,147 @@ func And(ts ...*Term) *Term {
 	for _, t := range ts {
 		if !add(t) {
 			return False
+		}
+	}
+	// unit propagation against flattened conjuncts
+	if len(out) > 1 {
+		k := 0
+		for _, t := range out {
+			keep := true
+			if t.op == OpNot && t.args[0].op == OpAnd && len(t.args[0].args) <= 24 {
+				all := true
+				for _, a := range t.args[0].args {
+					if !seen[a.id] {
+						all = false
+						break
+					}
+				}
+				if all {
+					return False
+				}
+			} else if t.op == OpNot && t.args[0].op == OpOr && len(t.args[0].args) <= 24 {
+				for _, a := range t.args[0].args {
+					if seen[a.id] {
+						return False
+					}
+				}
+			} else if t.op == OpOr && len(t.args) <= 24 {
+				for _, a := range t.args {
+					if seen[a.id] {
+						keep = false // absorbed: a ∧ (a ∨ …) = a
+						break
+					}
+				}
+			}
+			if keep {
+				out[k] = t
+				k++
+			}
+		}
+		out = out[:k]
+	}
+	// partition-aware intersection
+	if len(out) > 1 {
+		var pos map[int][]int32
+		var cnt map[int]int
+		flatPid := map[int]bool{}
+		for _, p := range flatPs {
+			if pos == nil {
+				pos = map[int][]int32{}
+				cnt = map[int]int{}
+			}
+			if cur, ok := pos[p.pid]; ok {
+				pos[p.pid] = interIdx(cur, p.idx)
+			} else {
+				pos[p.pid] = p.idx
+			}
+			cnt[p.pid]++
+			flatPid[p.pid] = true
+		}
+		for _, t := range out {
+			for _, p := range t.ps {
+				if pos == nil {
+					pos = map[int][]int32{}
+					cnt = map[int]int{}
+				}
+				if cur, ok := pos[p.pid]; ok {
+					pos[p.pid] = interIdx(cur, p.idx)
+				} else {
+					pos[p.pid] = p.idx
+				}
+				cnt[p.pid]++
+			}
+		}
+		if pos != nil {
+			usedNeg := map[int]bool{}
+			for _, t := range out {
+				if t.op == OpNot {
+					for _, p := range t.args[0].ps {
+						if flatPid[p.pid] {
+							continue // the negation may be a constituent of the flattened atom itself
+						}
+						if cur, ok := pos[p.pid]; ok {
+							pos[p.pid] = diffIdx(cur, p.idx)
+							usedNeg[t.id] = true
+							cnt[p.pid] += 2
+						}
+					}
+				}
+			}
+			for pid, idx := range pos {
+				if len(idx) == 0 {
+					return False
+				}
+				if cnt[pid] < 2 {
+					delete(pos, pid)
+				}
+			}
+			if len(pos) > 0 {
+				k := 0
+				var extra []*Term
+				for _, t := range out {
+					if usedNeg[t.id] {
+						continue
+					}
+					drop := false
+					for _, p := range t.ps {
+						if idx, ok := pos[p.pid]; ok {
+							// replaced by the intersection for this partition
+							if len(idx) == len(p.idx) {
+								// t already equals the intersection: keep t itself (once)
+								if pos[p.pid] != nil {
+									pos[p.pid] = nil
+									continue
+								}
+							}
+							drop = true
+							break
+						}
+					}
+					if drop {
+						continue
+					}
+					out[k] = t
+					k++
+				}
+				out = out[:k]
+				for pid, idx := range pos {
+					if idx != nil && !flatPid[pid] {
+						extra = append(extra, psetTerm(pid, idx))
+					}
+				}
+				for _, e := range extra {
+					dup := false
+					for _, t := range out {
+						if t == e {
+							dup = true
+						}
+					}
+					if !dup {
+						out = append(out, e)
+					}
+				}
+			}
 		}
 	}
 	// x==c together with not(x==c') : drop the redundant negation
@@ -395,8 +651,25 @@ func Or(ts ...*Term) *Term {
 		return out[0]
 	}
 	sort.Slice(out, func(i, j int) bool { return out[i].id < out[j].id })
-	// absorption-lite: (a ∧ x) ∨ (a ∧ ¬x) patterns are left to the solver
-	return mkApp(OpOr, SBool, "", out...)
+	r := mkApp(OpOr, SBool, "", out...)
+	if r.ps == nil && len(out[0].ps) > 0 {
+		for _, p0 := range out[0].ps {
+			idx := p0.idx
+			ok := true
+			for _, t := range out[1:] {
+				o := t.psFor(p0.pid)
+				if o == nil {
+					ok = false
+					break
+				}
+				idx = unionIdx(idx, o)
+			}
+			if ok {
+				r.ps = append(r.ps, pset{pid: p0.pid, idx: idx})
+			}
+		}
+	}
+	return r
 }
 
 func Implies(a, b *Term) *Term { return Or(Not(a), b) }
@@ -405,6 +678,8 @@ func Implies(a, b *Term) *Term { return Or(Not(a), b) }
 // Cases
 
 const liftCap = 6_000_000
+
+var debugWhere string
 
 var debugLift = os.Getenv("SYMGO_DEBUG_LIFT") != ""
 
@@ -476,6 +751,34 @@ func mkCases(sort Sort, cs []Case) *Term {
 	for j := range vals {
 		out[j] = Case{Or(guards[j]...), vals[j]}
 	}
+	// the guards of a case list are mutually exclusive: remember that
+	{
+		gl := make([]*Term, len(out))
+		for j := range out {
+			gl[j] = out[j].G
+		}
+		// already psets of one common partition?
+		common := false
+		for _, p0 := range gl[0].ps {
+			ok := true
+			for _, g := range gl[1:] {
+				if g.psFor(p0.pid) == nil {
+					ok = false
+					break
+				}
+			}
+			if ok {
+				common = true
+				break
+			}
+		}
+		if !common {
+			if debugAnd {
+				checkExclusive(gl)
+			}
+			registerPartition(gl)
+		}
+	}
 	// canonical order by constant key
 	sort2 := out
 	sortCases(sort2)
@@ -530,7 +833,7 @@ func lift(resSort Sort, f func(cs []*Term) *Term, args ...*Term) *Term {
 		for _, l := range lists {
 			fmt.Fprintf(os.Stderr, "%d ", len(l))
 		}
-		fmt.Fprintf(os.Stderr, "res=%v\n", resSort)
+		fmt.Fprintf(os.Stderr, "res=%v at %s\n", resSort, debugWhere)
 	}
 	if total == 1 {
 		cs := make([]*Term, len(args))
@@ -599,7 +902,7 @@ func Ite(c, a, b *Term) *Term {
 		}
 		return mkCases(a.sort, out)
 	}
-	if a.op == OpSegStr || b.op == OpSegStr {
+	if a.op == OpSegStr || b.op == OpSegStr || (a.sort == SStr && (!noByte(a, '/') || !noByte(b, '/'))) {
 		if r := iteSegStr(c, a, b); r != nil {
 			return r
 		}
